@@ -181,17 +181,17 @@ type engine struct {
 	// free-running mode (component `pool`): the REAL worker pool (taskqueue.Startup) pops and executes,
 	// nothing parks in the harness; peers listed in stalledPeers never complete a send, all others
 	// complete at once
-	free         bool
-	stalledPeers map[int]bool
-	evCh         chan struct{}
-	gateMu       sync.Mutex
-	gateMode     map[int]string
-	gateCh       map[int]chan struct{}
-	sendBlocked  map[int]int
-	allocWaiting int32 // free mode: reservations that were not granted at once and are still waiting
-	allocRefused map[int]int // free mode: waiting reservations the allocator refused, per peer
+	free           bool
+	stalledPeers   map[int]bool
+	evCh           chan struct{}
+	gateMu         sync.Mutex
+	gateMode       map[int]string
+	gateCh         map[int]chan struct{}
+	sendBlocked    map[int]int
+	allocWaiting   int32       // free mode: reservations that were not granted at once and are still waiting
+	allocRefused   map[int]int // free mode: waiting reservations the allocator refused, per peer
 	allocWaitingBy map[int]int // free mode: reservations waiting for memory, per peer
-	lateBuild    map[int]int // free mode: messages built on a queue after its Shutdown was called, per peer
+	lateBuild      map[int]int // free mode: messages built on a queue after its Shutdown was called, per peer
 
 	alloc *allocWrap
 	net   *fakeNet
@@ -305,6 +305,7 @@ func (s *fakeSender) SendMsg(ctx context.Context, m gsmsg.GraphSyncMessage) erro
 		return errors.New("shutdown")
 	}
 }
+
 // gateSend (free-running mode): the network of peer p completes a send at once ("ok"), fails it
 // ("fail") or keeps it on the wire until the mode changes ("stall")
 func (e *engine) gateSend(p int) error {
